@@ -319,11 +319,11 @@ func genC20(tier string) []Scenario {
 	ws := []time.Duration{time.Millisecond, 50 * time.Millisecond, time.Hour}
 	maxN := 3
 	if th {
-		maxN = 5
+		maxN = 6
 	}
 	bd := 1
 	if th {
-		bd = 2
+		bd = unbounded
 	}
 	for _, kind := range []int{kBase, kFuncR} {
 		for _, w := range ws {
